@@ -11,8 +11,8 @@ Ingredients
     on update histories, and the dump/load state machine of results;
   * search on the real code: every labelled class x parameter values x qubit orders,
     register layouts, collapse / mid-circuit measurements, register names, QASM programs
-    with custom gates / expressions / aliases against an independent evaluator (foreign
-    programs are outside the property: disagreements are recorded as observations only), dict and
+    with custom gates / expressions / aliases against an independent evaluator (regression
+    suite of the reader; the features in OBSERVATION_ONLY are recorded as observations), dict and
     JSON round trips of every gate class (controlled_by, after set_parameters, fused,
     channels), M.load, result dump/load in all kinds and access histories.
 """
@@ -492,13 +492,16 @@ def corr_reader_programs(ctx):
         ctx.stat("reader_none" if got == "NONE" else "reader_ok")
     ans = run_driver(lines, driver=DRIVER)
     bad = [(t, g, a) for a, (t, g) in zip(ans, reals) if " ".join(a.split()) != " ".join(g.split())]
-    # these statement lists go beyond what `to_qasm` emits: a disagreement between the
-    # reader and its model here is outside the property (export -> import round trip) and
-    # is recorded as an observation only
-    ctx.stat("observation:qasm-import:statements:agree", len(reals) - len(bad))
+    # statement lists beyond what `to_qasm` emits (several qregs, measure lines in any order
+    # and interleaved with gates): read correctly by the unchanged tree, so part of the
+    # regression suite of the reader
+    ctx.ob("C13_corr_qasm_reader_programs", not bad, "correspondence", f"{len(bad)} differ, e.g. {bad[:1]}")
     if bad:
-        ctx.stat("observation:qasm-import:statements:disagree", len(bad))
-        OBSERVED.append(f"qasm-import:statements ({len(bad)} of {len(reals)} foreign statement lists read differently from the reader model)")
+        t, g, a = bad[0]
+        ctx.fail("qasm-import:statements", "the reader's circuit differs from the model's reading of the statement list",
+                 PRE + f"c = Circuit.from_qasm({t!r})\nregs = {{k: list(v) for k, v in c.measurement_tuples.items()}}\n"
+                 f"got = (c.nqubits, [(g.qasm_label, list(g.qubits)) for g in c.queue if not isinstance(g, gates.M)], regs)\nprint(got)\nassert False, got\n",
+                 expected=a, observed=g, broken=["C13_corr_qasm_reader_programs"])
 
 
 # ---------------------------------------------------------------------------
@@ -573,6 +576,22 @@ def rand_expr(rng, vars_, depth, want_paren):
     return E(op, rand_expr(rng, vars_, 0, False), E("num", rng.choice(nums)))
 
 
+# formal parameter names of custom gates that look like constants or functions
+SHADOW_NAMES = ["tau", "euler", "e", "pi2", "lam", "sin", "cos", "exp", "sqrt", "ln", "gamma", "api", "np2", "pie"]
+LITERALS = ["1e-3", "2.5e-1", "1.5e+1", "1E-2", "-0.5", "-3", "-1e-2", "-2.5", "0.5e1", "3", "0.001"]
+
+
+def literal_value(v):
+    """value of the small literal / flat-expression texts used as call arguments."""
+    table = {"pi": math.pi, "-pi": -math.pi, "3*pi/4": 3 * math.pi / 4, "pi/2": math.pi / 2}
+    return table[v] if v in table else float(v)
+
+
+FLAT_EXPRS = [E("/", E("pi"), E("num", "2")), E("neg", E("pi")), E("/", E("*", E("num", "3"), E("pi")), E("num", "4")),
+              E("*", E("pi"), E("num", "0.5")), E("/", E("neg", E("pi")), E("num", "2")), E("/", E("pi"), E("num", "4")),
+              E("*", E("num", "2"), E("pi"))]
+
+
 def gen_program(rng, feature):
     """returns (qasm text, expected flat gate list [(cls, qubits, params)], nqubits,
     expected registers or None)."""
@@ -587,10 +606,16 @@ def gen_program(rng, feature):
         hdr += [f"qreg q[{n}];"]
         ref = lambda i: f"q[{i}]"
     labels = [l for l in QASM_SPEC if ARITY[QASM_SPEC[l]][0] <= n]
-    if feature != "aliases":
-        labels = [l for l in labels if l not in ("u", "U", "id")]
-    else:
+    if feature == "aliases":
         labels = ["u", "U", "id", "cx", "ccx", "u3"] if n >= 3 else ["u", "U", "id", "cx"]
+    elif feature == "aliases-expr":
+        labels = ["u1", "u2", "u3", "U", "u", "cx", "id"] + (["ccx"] if n >= 3 else [])
+    elif feature == "custom-multiuse":
+        labels = ["u2", "u3", "cu3", "u", "rx", "cx"]
+    elif feature in ("custom-shadow", "custom-shared", "literals"):  # mostly parametrised gates
+        labels = [l for l in labels if l not in ("u", "U", "id") and ARITY[QASM_SPEC[l]][1] >= 1] + ["cx", "h"]
+    else:
+        labels = [l for l in labels if l not in ("u", "U", "id")]
     body, exp = [], []
     defs = {}  # name -> (formals, qformals, flat body [(cls, qformal idx list, [E])])
     paren = feature in ("expr-paren", "custom-expr-paren")
@@ -602,29 +627,50 @@ def gen_program(rng, feature):
         for _ in range(npar):
             if want_expr:
                 es.append(rand_expr(rng, vars_, 1, paren and rng.random() < 0.7))
-            elif vars_ and rng.random() < 0.6:
+            elif vars_ and (rng.random() < 0.6 or feature in ("custom-multiuse", "custom-shadow")):
                 es.append(E("var", rng.choice(vars_)))
+            elif feature == "literals":
+                v = rng.choice(LITERALS)
+                es.append(E("neg", E("num", v[1:])) if v.startswith("-") else E("num", v))
+            elif feature == "aliases-expr":
+                es.append(rng.choice(FLAT_EXPRS))
             else:
                 es.append(E("num", rng.choice(["0.5", "1.25", "3", "0.001"])))
+        if feature == "custom-multiuse" and npar >= 2 and len(vars_) >= 2:
+            # several uses of one formal, and an order different from the declaration
+            es = [E("var", v) for v in (list(reversed(vars_)) + [vars_[-1]] * npar)[:npar]]
         return cls, nq, es
 
     if feature.startswith("custom"):
-        ndefs = 2 if feature == "custom-nested" else 1
+        ndefs = 2 if feature in ("custom-nested", "custom-shared") else 1
         for d in range(ndefs):
             name = f"my{d}"
             formals = [["alpha", "beta", "theta", "x"][i] for i in range(rng.randint(0 if d else 1, 2))]
             if feature == "custom-nested" and d == 1:
                 formals = ["theta", "w"]  # same formal name as the inner definition may use
+            if feature == "custom-shadow":  # formal names that look like constants / functions
+                formals = rng.sample(SHADOW_NAMES, rng.randint(1, 3))
+            if feature == "custom-multiuse":
+                formals = rng.sample(["alpha", "beta", "theta", "x", "lam", "phi"], rng.randint(2, 3))
+            if feature == "custom-shared":  # both definitions use the same formal names
+                formals = ["theta", "phi"] if d == 0 else rng.choice([["theta", "phi"], ["phi", "theta"]])
             nqf = rng.randint(1, min(2, n))
+            if feature == "custom-shared":
+                nqf = 2
+            if feature == "custom-multiuse":
+                nqf = 2
             qf = ["a", "b", "c"][:nqf]
             flat, lines = [], []
-            for _ in range(rng.randint(1, 3)):
-                if d == 1 and rng.random() < 0.6:
+            for step_i in range(rng.randint(1, 3)):
+                if d == 1 and (rng.random() < 0.6 or (feature == "custom-shared" and step_i == 0)):
                     inner_name = "my0"
                     f0, q0, b0 = defs[inner_name]
                     if len(q0) <= nqf:
                         qs = rng.sample(range(nqf), len(q0))
                         args = [E("var", rng.choice(formals)) if formals and rng.random() < 0.7 else E("num", "0.75") for _ in f0]
+                        if feature == "custom-shared":  # permuted arguments and qubits
+                            args = [E("var", v) for v in rng.choice([["phi", "theta"], ["theta", "phi"], ["phi", "phi"]])]
+                            qs = list(reversed(range(len(q0)))) if rng.random() < 0.6 else qs
                         lines.append(f"{inner_name}{'(' + ','.join(a.txt() for a in args) + ')' if f0 else ''} {','.join(qf[i] for i in qs)};")
                         for cls, qi, es in b0:
                             flat.append((cls, [qs[j] for j in qi], [("sub", e, dict(zip(f0, args))) for e in es]))
@@ -648,14 +694,19 @@ def gen_program(rng, feature):
             name = rng.choice(list(defs))
             formals, qf, flat = defs[name]
             qs = rng.sample(range(n), len(qf))
-            vals = [rng.choice(["0.4", "1.5", "pi", "2", "0.125"]) for _ in formals]
-            env = {f: (math.pi if v == "pi" else float(v)) for f, v in zip(formals, vals)}
+            pool = ["0.4", "1.5", "pi", "2", "0.125"]
+            if feature in ("custom-shadow", "custom-multiuse", "custom-shared"):
+                pool = pool + ["-0.75", "1e-2", "2.5e-1", "-pi", "3*pi/4", "pi/2"]
+            vals = [rng.choice(pool) for _ in formals]
+            env = {f: literal_value(v) for f, v in zip(formals, vals)}
             body.append(f"{name}{'(' + ','.join(vals) + ')' if formals else ''} {','.join(ref(q) for q in qs)};")
             for cls, qi, es in flat:
                 exp.append((cls, [qs[j] for j in qi], [ev(e, env) for e in es]))
         else:
             label = rng.choice(labels)
             cls, nq, es = call_args(label, [], feature.startswith("expr"))
+            if nq > n:
+                continue
             qs = rng.sample(range(n), nq)
             body.append(f"{label}{'(' + ','.join(e.txt() for e in es) + ')' if es else ''} {','.join(ref(q) for q in qs)};")
             exp.append((cls, qs, [e.ev({}) for e in es]))
@@ -680,14 +731,25 @@ def gen_program(rng, feature):
 
 OBSERVED = []  # disagreements on foreign QASM programs (outside the property), per run
 
-FEATURES = ["plain", "aliases", "expr-flat", "expr-paren", "custom", "custom-nested", "custom-expr", "custom-expr-paren",
+FEATURES = ["plain", "aliases", "aliases-expr", "literals", "expr-flat", "expr-paren", "custom", "custom-nested",
+            "custom-shadow", "custom-multiuse", "custom-shared", "custom-expr", "custom-expr-paren",
             "multi-qreg", "measure-permuted", "measure-partial"]
+
+# Foreign programs are a REGRESSION suite for the reader (custom gates, argument
+# evaluation, measurement merging are anchors of the property): every feature the importer
+# reads correctly on the unchanged tree alarms if it breaks (key `qasm-import:<feature>`,
+# obligation `C13_search_qasm_import`).  Exactly the features below are read wrongly by the
+# unchanged tree (parentheses dropped from expressions, expressions of formal parameters
+# left as strings, unwritten bits of a partially measured creg measured); they are
+# outside the export -> import property and stay non-alarming observations (stats + notes).
+OBSERVATION_ONLY = {"expr-paren", "custom-expr", "custom-expr-paren", "measure-partial"}
 
 
 def search_programs(ctx):
     _, Circuit, gates = setup()
     per = 40 if ctx.thorough else 12
     seen = {}
+    nbad = 0
     for feature in FEATURES:
         for _ in range(per):
             try:
@@ -699,31 +761,43 @@ def search_programs(ctx):
             for cls, qs, ps in exp:
                 ref.add(getattr(gates, cls)(*qs, *ps))
             uref = np.asarray(ref.unitary())
+            py = (PRE + f"text = {text!r}\nc = Circuit.from_qasm(text)\nref = Circuit({n})\n"
+                  + "".join(f"ref.add(gates.{cls}(*{qs}, *{[float(p) for p in ps]}))\n" for cls, qs, ps in exp)
+                  + "assert np.allclose(c.unitary(), ref.unitary(), atol=1e-9), 'unitary differs'\n"
+                  + (f"assert {{k: list(v) for k, v in c.measurement_tuples.items()}} == {regs!r}, dict(c.measurement_tuples)\n" if regs is not None else ""))
+            prob = None
             try:
                 c = Circuit.from_qasm(text)
             except Exception as e:
                 ctx.stat(f"program_{feature}_rejected")
-                continue  # refusing a program is not a wrong reading
-            ctx.stat(f"program_{feature}_read")
-            prob = None
-            if c.nqubits != n:
-                prob = f"nqubits {c.nqubits} != {n}"
-            else:
-                try:
-                    u = np.asarray(c.unitary())
-                    if not np.allclose(u, uref, atol=1e-9):
-                        prob = "unitary of the imported circuit differs from the program's"
-                except Exception as e:
-                    prob = f"imported circuit has no unitary: {type(e).__name__}: {str(e)[:80]}"
-            if not prob and regs is not None:
-                got = {k: list(v) for k, v in c.measurement_tuples.items()}
-                if got != regs:
-                    prob = f"measurement registers {got} != {regs}"
-            if prob:
-                # foreign programs are outside the property (it quantifies over text the
-                # exporter produced): observation only, never a failure
+                # the generated programs of the regression features are valid and accepted by
+                # the unchanged tree: a rejection there is a regression of the reader
+                prob = f"the importer rejects the program: {type(e).__name__}: {str(e)[:100]}"
+                c = None
+            if c is not None:
+                ctx.stat(f"program_{feature}_read")
+                if c.nqubits != n:
+                    prob = f"nqubits {c.nqubits} != {n}"
+                else:
+                    try:
+                        u = np.asarray(c.unitary())
+                        if not np.allclose(u, uref, atol=1e-9):
+                            prob = "unitary of the imported circuit differs from the program's"
+                    except Exception as e:
+                        prob = f"imported circuit has no unitary: {type(e).__name__}: {str(e)[:80]}"
+                if not prob and regs is not None:
+                    got = {k: list(v) for k, v in c.measurement_tuples.items()}
+                    if got != regs:
+                        prob = f"measurement registers {got} != {regs}"
+            if prob and feature in OBSERVATION_ONLY:
                 ctx.stat(f"observation:qasm-import:{feature}")
                 seen.setdefault(feature, prob)
+            elif prob:
+                nbad += 1
+                ctx.fail(f"qasm-import:{feature}", f"foreign program read wrongly ({prob})", py,
+                         expected="the circuit the program denotes", observed=prob, broken=["C13_search_qasm_import"])
+    ctx.ob("C13_search_qasm_import", nbad == 0, "search",
+           f"{nbad} foreign programs of the regression features are read wrongly or rejected")
     for feature, prob in sorted(seen.items()):
         OBSERVED.append(f"qasm-import:{feature} ({prob})")
     ctx.sample({"program": gen_program(ctx.rng, "custom-nested")[0].split("\n")[2:]})
